@@ -68,3 +68,38 @@ Example C08_perm_nonvacuous :
   cartesian QcOps m3 /\ perm_ok QcOps P_c1 m3 /\ cartesian QcOps m2 /\ perm_ok QcOps P_xy m2
   /\ mN QcOps (pmesh QcOps P_c1 m3) AX = 1%nat /\ mN QcOps m3 AX = 2%nat.
 Proof. cbv zeta. repeat split; try exact I; intros a; destruct a; reflexivity. Qed.
+
+(* ---- mirroring a Cartesian grid along one axis a0 (Theory/MirrorThy.v): face positions x'_f = -x_(N-f), cell index i -> N+1-i,
+   cell fields mirrored, the a0-component of a face field mirrored (and negated for a velocity: sign factor -1), the other components
+   mirrored as cell-like data.  The mirrored stencils give in the mirrored cell what the original stencils give in the original
+   cell (east and west coefficients swap).  Diffusion and central advection over any field; upwind advection needs the order and
+   is stated over R. ---- *)
+From PFV Require Import MirrorThy.
+Theorem C08_diffusion_mirrors : forall (F : FieldOps) (L : FieldLaws F) (m : Mesh F) (a0 : axis),
+  cartesian F m -> 1 <= mN F m a0 -> forall (D : fvar F) (x : cvar F) c, 1 <= cidx a0 c <= mN F m a0 ->
+  apply_stencil F (mmesh F m a0) (diffAW F (mmesh F m a0) (mfvar F m a0 (k1 F) D)) (diffAP F (mmesh F m a0) (mfvar F m a0 (k1 F) D))
+    (diffAE F (mmesh F m a0) (mfvar F m a0 (k1 F) D)) (mcvar F m a0 x) (mcell F m a0 c)
+  = apply_stencil F m (diffAW F m D) (diffAP F m D) (diffAE F m D) x c.
+Proof. exact diffusion_mirrors. Qed.
+Theorem C08_central_mirrors : forall (F : FieldOps) (L : FieldLaws F) (m : Mesh F) (a0 : axis),
+  cartesian F m -> 1 <= mN F m a0 -> forall (u : fvar F) (x : cvar F) c, 1 <= cidx a0 c <= mN F m a0 ->
+  apply_stencil F (mmesh F m a0) (cenAW F (mmesh F m a0) (mfvar F m a0 (kopp F (k1 F)) u)) (cenAP F (mmesh F m a0) (mfvar F m a0 (kopp F (k1 F)) u))
+    (cenAE F (mmesh F m a0) (mfvar F m a0 (kopp F (k1 F)) u)) (mcvar F m a0 x) (mcell F m a0 c)
+  = apply_stencil F m (cenAW F m u) (cenAP F m u) (cenAE F m u) x c.
+Proof. exact central_mirrors. Qed.
+Theorem C08_upwind_mirrors : forall (m : Mesh ROps) (a0 : axis),
+  cartesian ROps m -> 1 <= mN ROps m a0 -> forall (u : fvar ROps) (x : cvar ROps) c, 1 <= cidx a0 c <= mN ROps m a0 ->
+  apply_stencil ROps (mmesh ROps m a0) (upwAW ROps (mmesh ROps m a0) (mfvar ROps m a0 (kopp ROps (k1 ROps)) u) (mfvar ROps m a0 (kopp ROps (k1 ROps)) u))
+    (upwAP ROps (mmesh ROps m a0) (mfvar ROps m a0 (kopp ROps (k1 ROps)) u) (mfvar ROps m a0 (kopp ROps (k1 ROps)) u))
+    (upwAE ROps (mmesh ROps m a0) (mfvar ROps m a0 (kopp ROps (k1 ROps)) u) (mfvar ROps m a0 (kopp ROps (k1 ROps)) u))
+    (mcvar ROps m a0 x) (mcell ROps m a0 c)
+  = apply_stencil ROps m (upwAW ROps m u u) (upwAP ROps m u u) (upwAE ROps m u u) x c.
+Proof. exact upwind_mirrors. Qed.
+(* the mirrored mesh is the mesh of the mirrored face positions: cell sizes are the mirrored cell sizes, ghost sizes included *)
+Theorem C08_mirrored_sizes : forall (F : FieldOps) (L : FieldLaws F) (m : Mesh F) (a0 : axis), 1 <= mN F m a0 ->
+  forall p, p <= S (mN F m a0) -> mDX F (mmesh F m a0) a0 p = mDX F m a0 (S (mN F m a0) - p).
+Proof. exact mDX_a0. Qed.
+Print Assumptions C08_diffusion_mirrors.
+Print Assumptions C08_central_mirrors.
+Print Assumptions C08_upwind_mirrors.
+Print Assumptions C08_mirrored_sizes.
